@@ -77,9 +77,18 @@ def main(args):
 
         if args.dry_run:
             for exp_path in to_delete:
-                print("Would delete", str(exp_path.relative_to(cwd)))
+                print("Would delete", _printable_path(exp_path, cwd))
         else:
             for exp_path in to_delete:
                 if args.verbose:
-                    print("Deleting", str(exp_path.relative_to(cwd)))
+                    print("Deleting", _printable_path(exp_path, cwd))
                 shutil.rmtree(exp_path, ignore_errors=True)
+
+
+def _printable_path(path: pathlib.Path, cwd: pathlib.Path) -> str:
+    # Print a path relative to the current working directory, if possible
+    # (e.g., it is not possible when running from a sibling directory).
+    try:
+        return str(path.relative_to(cwd))
+    except ValueError:
+        return str(path)
